@@ -1,6 +1,7 @@
 package calls
 
 import (
+	"bytes"
 	"context"
 	"encoding/base64"
 	"errors"
@@ -66,6 +67,9 @@ type CancelCase struct {
 	// ctx.Done() and only then calls Recv repeatedly. How "deadline": instead
 	// of a cancel the call's own grpc-timeout (300m) expires.
 	Burst int `json:"burst,omitempty"`
+	// Raw HTTP/1 clients that announce they will not re-use the connection:
+	// "close" (Connection: close header) or "http10" (HTTP/1.0 request line).
+	NoReuse string `json:"no_reuse,omitempty"`
 }
 
 func (c *CancelCase) class() string {
@@ -91,6 +95,9 @@ func (c *CancelCase) class() string {
 	}
 	if c.How == "deadline" {
 		t = "+deadline-expires" + t
+	}
+	if c.NoReuse != "" {
+		t = "+no-reuse-" + c.NoReuse + t
 	}
 	p := ""
 	if c.Target != "" {
@@ -271,7 +278,7 @@ func (s *cancelSvc) stream(md protoreflect.MethodDescriptor, ss grpc.ServerStrea
 	c := sc.spec
 	recv := func() error {
 		sc.log.log("recv-enter", nil, 0)
-		err := ss.RecvMsg(newChunk())
+		err := ss.RecvMsg(vschema.NewMsg(md.Input()))
 		sc.log.log("recv-return", err, 0)
 		return err
 	}
@@ -288,7 +295,7 @@ func (s *cancelSvc) stream(md protoreflect.MethodDescriptor, ss grpc.ServerStrea
 			sc.awaitCtx(ctx)
 			return errScenarioEnd
 		}
-		if err := ss.RecvMsg(newChunk()); err != nil {
+		if err := ss.RecvMsg(vschema.NewMsg(md.Input())); err != nil {
 			sc.log.log("setup-error", err, 0)
 			return err
 		}
@@ -304,7 +311,7 @@ func (s *cancelSvc) stream(md protoreflect.MethodDescriptor, ss grpc.ServerStrea
 	for pass := 0; pass < 2; pass++ {
 		for i := 0; i < c.K; i++ {
 			if cs && (!seq || pass == 0) {
-				if err := ss.RecvMsg(newChunk()); err != nil {
+				if err := ss.RecvMsg(vschema.NewMsg(md.Input())); err != nil {
 					sc.log.log("setup-error", err, i)
 					return err
 				}
@@ -326,7 +333,7 @@ func (s *cancelSvc) stream(md protoreflect.MethodDescriptor, ss grpc.ServerStrea
 			break
 		}
 		if pass == 0 && c.HalfClose && cs {
-			err := ss.RecvMsg(newChunk())
+			err := ss.RecvMsg(vschema.NewMsg(md.Input()))
 			if err != io.EOF {
 				if err == nil {
 					err = errors.New("a message arrived instead of the client's end of stream")
@@ -421,6 +428,8 @@ func (s *cancelSvc) methodOf(shape string) string {
 		return "CS"
 	case "ss":
 		return "SS"
+	case "upload":
+		return "Upload" // client stream of google.api.HttpBody chunks (HTTP transcoding)
 	}
 	return "Bidi"
 }
@@ -439,6 +448,8 @@ func (s *cancelSvc) httpPath(c *CancelCase) (verb, path string) {
 			return "GET", "/c/ss/x"
 		}
 		return "POST", "/c/ss"
+	case "upload":
+		return "POST", "/c/upload/x"
 	}
 	return "POST", "/c/bidi"
 }
@@ -463,6 +474,9 @@ func plan(c *CancelCase) (n int, halfClose, partial bool) {
 			return 0, false, false
 		}
 		return 1, true, false
+	}
+	if c.Shape == "upload" {
+		return 0, false, true // some bytes of the upload, then silence
 	}
 	// cs, bidi
 	switch c.State {
@@ -540,6 +554,9 @@ func (s *cancelSvc) startH2C(sc *cscn, srv *wire.Server) (*cancelClient, error) 
 	req.Header.Set("X-Scn", sc.id)
 	if isHTTP {
 		req.Header.Set("Content-Type", "application/json")
+		if c.Shape == "upload" {
+			req.Header.Set("Content-Type", "application/octet-stream")
+		}
 	} else {
 		req.Header.Set("Content-Type", "application/grpc")
 		req.Header.Set("Te", "trailers")
@@ -573,6 +590,12 @@ func (s *cancelSvc) startH2C(sc *cscn, srv *wire.Server) (*cancelClient, error) 
 		}
 		if half {
 			pw.Close()
+		}
+		if c.Shape == "upload" {
+			if _, err := pw.Write(bytes.Repeat([]byte("u"), 1000)); err != nil {
+				cancel()
+				return nil, fmt.Errorf("client write: %w", err)
+			}
 		}
 	}
 	cl := &cancelClient{}
@@ -661,6 +684,10 @@ func (s *cancelSvc) buildH1(c *CancelCase, id string, ref bool) h1Req {
 		q.readN = -1 // a single transcoded message is the whole body
 	}
 	cl := len(body)
+	if c.Shape == "upload" {
+		ct = "application/octet-stream"
+		body, cl, partial = bytes.Repeat([]byte("u"), 1000), 1<<20, false
+	}
 	if partial {
 		// announce one more message than is sent; deliver only its first bytes
 		m := one()
@@ -682,7 +709,14 @@ func (s *cancelSvc) buildH1(c *CancelCase, id string, ref bool) h1Req {
 		fmt.Fprintf(&sb, "POST /__ref/x HTTP/1.1\r\nHost: verif.test\r\nX-Scn: %s\r\nX-Ref-Read: %d\r\nX-Ref-Replies: %d\r\n", id, q.readN, replies)
 		verb = "POST"
 	} else {
-		fmt.Fprintf(&sb, "%s %s HTTP/1.1\r\nHost: verif.test\r\nX-Scn: %s\r\n", verb, path, id)
+		version := "1.1"
+		if c.NoReuse == "http10" {
+			version = "1.0"
+		}
+		fmt.Fprintf(&sb, "%s %s HTTP/%s\r\nHost: verif.test\r\nX-Scn: %s\r\n", verb, path, version, id)
+		if c.NoReuse == "close" {
+			sb.WriteString("Connection: close\r\n")
+		}
 	}
 	chunked := c.Framing != "" && verb != "GET"
 	if c.Gzip && verb != "GET" && !ref {
@@ -1126,7 +1160,7 @@ func (s *cancelSvc) runScenario(c *CancelCase, onSlow func()) *cancelOutcome {
 func cancelMatrix() []CancelCase {
 	var out []CancelCase
 	transports := []string{"grpcgo", "h2c-grpc", "h2c-http", "h1-web", "h1-http"}
-	shapes := []string{"unary", "cs", "ss", "bidi"}
+	shapes := []string{"unary", "cs", "ss", "bidi", "upload"}
 	states := []string{"pre-recv", "ctx-wait", "between-recv", "between-send", "in-recv", "in-send"}
 	for _, t := range transports {
 		for _, sh := range shapes {
@@ -1147,6 +1181,8 @@ func cancelMatrix() []CancelCase {
 
 func applicable(t, sh, st string) bool {
 	switch sh {
+	case "upload":
+		return st == "in-recv" && strings.HasSuffix(t, "-http")
 	case "unary":
 		if st != "ctx-wait" && st != "in-recv" {
 			return false
@@ -1234,6 +1270,18 @@ func (c *CancelCase) normalise() {
 	}
 	if c.MsgSize == 1 {
 		c.MsgSize = 2
+	}
+	if c.Shape == "upload" {
+		if !strings.HasSuffix(c.Transport, "-http") || c.Target != "" {
+			c.Shape = "cs"
+		} else {
+			c.State, c.K, c.HalfClose, c.Get, c.Framing, c.Gzip, c.Text, c.Burst = "in-recv", 0, false, false, "", false, false, 0
+		}
+	}
+	if !h1 || c.Framing != "" || c.Get && c.NoReuse == "http10" {
+		if !h1 || c.Framing != "" {
+			c.NoReuse = ""
+		}
 	}
 	csShape := c.Shape == "cs" || c.Shape == "bidi"
 	if !csShape || c.State == "in-recv" {
@@ -1351,6 +1399,28 @@ func framingCells() []CancelCase {
 	return out
 }
 
+// noReuseCells: raw HTTP/1 clients that will not re-use the connection
+// (Connection: close, HTTP/1.0) - a disconnect must reach the handler all the
+// same.
+func noReuseCells() []CancelCase {
+	var out []CancelCase
+	for _, c := range cancelMatrix() {
+		if !strings.HasPrefix(c.Transport, "h1") || !(c.State == "ctx-wait" || c.State == "between-send" || c.State == "in-recv") {
+			continue
+		}
+		for _, nr := range []string{"close", "http10"} {
+			d := c
+			d.NoReuse = nr
+			out = append(out, d)
+			if strings.HasSuffix(c.Transport, "-http") && (c.Shape == "unary" || c.Shape == "ss") && c.State == "ctx-wait" {
+				d.Get = true
+				out = append(out, d)
+			}
+		}
+	}
+	return out
+}
+
 // burstCells: unread complete messages are buffered at the server when the
 // call ends; a Recv made after the handler has seen ctx.Done() must fail.
 func burstCells() []CancelCase {
@@ -1427,6 +1497,7 @@ func runCancels(r *mon.Run) {
 	}
 	cases = append(cases, framingCells()...)
 	cases = append(cases, burstCells()...)
+	cases = append(cases, noReuseCells()...)
 	nLocal := len(cases)
 	cases = append(cases, proxyMatrix()...)
 	// every cell under the all-off and the all-on option mask plus, in
@@ -1462,6 +1533,7 @@ func runCancels(r *mon.Run) {
 		c.Framing = []string{"", "", "chunked-together", "chunked-later", "chunked-never"}[rng.Intn(5)]
 		c.Text = rng.Intn(3) == 0
 		c.Gzip = rng.Intn(4) == 0
+		c.NoReuse = []string{"", "", "", "close", "http10"}[rng.Intn(5)]
 		if (c.Shape == "cs" || c.Shape == "bidi") && rng.Intn(8) == 0 {
 			c.State, c.Burst = "burst-recv", 1+rng.Intn(8)
 			if rng.Intn(3) == 0 {
